@@ -25,3 +25,8 @@ Definition vusable (cf : cfg) (x : list (option Q) * sample) : bool := is_active
 Definition vembed (cf : cfg) (x : list (option Q) * sample) : sample :=
   {| s_x := map (fun o => match o with Some v => v | None => big_test end) (fst x);
      s_sel := vusable cf x; s_w := s_w (snd x); s_date := s_date (snd x); s_z := s_z (snd x) |}.
+
+(* ---- grids: a cell cannot be removed; a masked cell must behave as a cell whose variables are all undefined ---- *)
+Definition blank (s : sample) : sample :=
+  {| s_x := s_x s; s_sel := true; s_w := s_w s; s_date := s_date s; s_z := map (fun _ => None) (s_z s) |}.
+Definition gblank (cf : cfg) (s : sample) : sample := if is_active cf s then s else blank s.
